@@ -29,6 +29,7 @@ ASSUMPTIONS = ['FreshIds: the source never hands out the same id twice (discharg
 
 def tree_history(rng, tier):
     w = World(rng, names=PLAIN if rng.random() < 0.6 else NAMES)
+    w.keep_created = True      # the id rules tell entities apart by (kind, parent, name, creation time)
     w.open('ow')
     w.emit('id_all')
     n = rng.randint(12, 30 if tier == 'quick' else 80)
